@@ -325,6 +325,31 @@ func oracleC17(f *sessionFam, w *World, res *Result) []Violation {
 			}
 		}
 	}
+	// preflight: answered by the server itself with the configured status, no session created
+	if o.Cors != nil {
+		for _, e := range w.evs("pf", "c-raw-resp") {
+			if len(e.P) < 4 || e.P[0] != "OPTIONS" {
+				continue
+			}
+			if o.Cors.Continue {
+				w.probe("preflight_passed_on")
+				continue
+			}
+			want := o.Cors.Status
+			if want == 0 {
+				want = 204
+			}
+			if int(e.N) != want {
+				l.add("preflight-status", fmt.Sprintf("got-%d", e.N), fmt.Sprintf("preflight answered %d, configured success status %d (body %q)", e.N, want, clip(e.S, 60)))
+			}
+			if len(e.P) > 2 && e.P[2] == "app" {
+				l.add("preflight-answered-by-server", "", "preflight was passed to the application's handler although preflightContinue is off")
+			}
+		}
+		if len(w.evs("pf", "connection")) > 0 {
+			l.add("preflight-creates-no-session", "", "a preflight request created a session")
+		}
+	}
 	// initial_headers once per session, on the handshake response; headers once per response
 	for i := range f.sc.Clients {
 		sp := &f.sc.Clients[i]
